@@ -21,7 +21,8 @@ ROOT = os.path.dirname(os.path.dirname(os.path.abspath(__file__)))
 COQ = os.path.join(ROOT, "coq")
 BUILD = os.path.join(ROOT, "build")
 PY = "/venv/bin/python"
-ENV = dict(os.environ, PYTHONPATH="/repo/src:" + ROOT, PYTHONHASHSEED="0")
+REPO = os.environ.get("VERIF_REPO") or "/repo"
+ENV = dict(os.environ, PYTHONPATH=REPO + "/src:" + ROOT, PYTHONHASHSEED="0", VERIF_REPO=REPO)
 FORBIDDEN = re.compile(r"\b(Admitted|admit|Axiom|Axioms|Parameter|Parameters|Conjecture|Conjectures|Hypothesis|Hypotheses|Variable|Variables)\b"
                        r"|Unset\s+Guard|bypass_check|type-in-type|impredicative-set|Admit\s+Obligations|Unset\s+Universe\s+Checking|Unset\s+Positivity")
 STD_AXIOMS = {
@@ -224,7 +225,7 @@ def main(argv=None):
     mod = importlib.import_module(f"tools.props.{a.prop}")
     if a.replay:
         rec = json.load(open(a.replay))
-        sys.path.insert(0, "/repo/src")
+        sys.path.insert(0, REPO + "/src")
         r = mod.replay(rec)
         print(json.dumps(r, indent=1, default=str))
         return 1 if r.get("still_fails") else 0
@@ -257,7 +258,7 @@ def main(argv=None):
     finally:
         fcntl.flock(lock, fcntl.LOCK_UN)
     # correspondence / search on the real code (always; deeper when something broke)
-    sys.path.insert(0, "/repo/src")
+    sys.path.insert(0, REPO + "/src")
     try:
         mod.run(ctx)
     except Exception as e:
